@@ -78,7 +78,7 @@ type Run struct {
 func NewRun(prop, tier string, seed uint64, shard int, repo, outDir string) *Run {
 	r := &Run{Prop: prop, Tier: tier, Seed: seed, Shard: shard, Repo: repo, OutDir: outDir,
 		Thor: tier == "thorough", distinct: map[uint64]struct{}{}, seenViol: map[string]int{},
-		cpuBudget: 30 * time.Second}
+		cpuBudget: 300 * time.Second}
 	r.res.Shard = shard
 	r.res.Counters = map[string]int64{}
 	return r
